@@ -147,6 +147,14 @@ class Scaler(Transformer):
         # coordinates: xarray would otherwise broadcast / inner-join against the stored
         # arrays and hand on something the later validators can no longer tell apart.
         missing = [dim for dim in self.weights_.dims if dim not in X.dims]
+        if isinstance(X, xr.Dataset) and isinstance(self.weights_, xr.Dataset):
+            # ... variable by variable: the Dataset as a whole may still have the
+            # dimension through its other variables
+            for name, weights in self.weights_.data_vars.items():
+                if name in X.data_vars:
+                    missing = missing + [
+                        dim for dim in weights.dims if dim not in X[name].dims
+                    ]
         if missing:
             raise ValueError(
                 f"Data to be transformed lacks the dimension(s) {missing} of the data used to fit."
